@@ -984,9 +984,12 @@ pub fn spec() -> pv::Spec {
 		 file unchanged (only the appearance of an empty lock file is ignored); plus opening missing paths and an empty \
 		 directory. (c) admin: seeded databases of 1-4 columns drawn from 17 kinds (hash plain/preimage/rc/uniform/append-only, \
 		 btree, multitree; compression variants), filled by 3..10 (thorough ..30) transactions, cleanly closed or copied while \
-		 the last 1-3 commits were only in flushed logs; one of add_column / drop_last_column / reset_column(None|Some) / \
-		 clear_column; then metadata, in/out options, files of untouched columns (clean sources: byte identical), and a full \
-		 read-back of every untouched column against the harness model, emptiness and usability of the affected column. \
+		 the last 1-3 commits were only in flushed logs (multitree columns additionally hold a node shared by two trees, so \
+		 that refcount_* files exist); a chain of 1-3 operations out of add_column / drop_last_column / reset_column(None|Some) \
+		 / clear_column, each followed by: metadata, in/out options, files of the affected column gone, files of untouched \
+		 columns byte identical (clean sources), reopening with the resulting options and a full read-back of every untouched \
+		 column against the harness model (including the commits that were only in the logs), emptiness of the affected column \
+		 (all old keys absent, iteration empty) and its usability with the (new) options (write, reopen, read back). \
 		 evaluations = individual comparisons (one per key read, iteration item, file set, metadata field, open attempt). \
 		 distinct_nontrivial = distinct (stored configuration, changed field | count change) pairs of part (b) + distinct \
 		 (operation, clean|pending logs, affected column kind, column count) tuples of part (c) + opened (missing-case, mode) pairs.",
